@@ -18,6 +18,10 @@ import (
 	"github.com/pkg/errors"
 )
 
+// ErrIdempotencyKeyReused is returned when the idempotency key of a request is already recorded for a write of
+// another kind, or for the revert of another transaction.
+var ErrIdempotencyKeyReused = errors.New("idempotency key already used by another write")
+
 type Parameters struct {
 	DryRun         bool
 	IdempotencyKey string
@@ -169,14 +173,21 @@ func (commander *Commander) CreateTransaction(ctx context.Context, parameters Pa
 		return nil, err
 	}
 
-	commander.monitor.CommittedTransactions(ctx, *log.Data.(ledger.NewTransactionLogPayload).Transaction, log.Data.(ledger.NewTransactionLogPayload).AccountMetadata)
+	// the log may be the one recorded for the idempotency key: events describe that entry, and only persisted ones
+	payload, ok := log.Data.(ledger.NewTransactionLogPayload)
+	if !ok {
+		return nil, ErrIdempotencyKeyReused
+	}
+	if !parameters.DryRun {
+		commander.monitor.CommittedTransactions(ctx, *payload.Transaction, payload.AccountMetadata)
+	}
 
-	return log.Data.(ledger.NewTransactionLogPayload).Transaction, nil
+	return payload.Transaction, nil
 }
 
 func (commander *Commander) SaveMeta(ctx context.Context, parameters Parameters, targetType string, targetID interface{}, m metadata.Metadata) error {
 	execContext := newExecutionContext(commander, parameters)
-	_, err := execContext.run(ctx, func(executionContext *executionContext) (*ledger.ChainedLog, chan struct{}, error) {
+	chainedLog, err := execContext.run(ctx, func(executionContext *executionContext) (*ledger.ChainedLog, chan struct{}, error) {
 		var (
 			log *ledger.Log
 			at  = ledger.Now()
@@ -210,7 +221,13 @@ func (commander *Commander) SaveMeta(ctx context.Context, parameters Parameters,
 		return err
 	}
 
-	commander.monitor.SavedMetadata(ctx, targetType, fmt.Sprint(targetID), m)
+	payload, ok := chainedLog.Data.(ledger.SetMetadataLogPayload)
+	if !ok {
+		return ErrIdempotencyKeyReused
+	}
+	if !parameters.DryRun {
+		commander.monitor.SavedMetadata(ctx, payload.TargetType, fmt.Sprint(payload.TargetID), payload.Metadata)
+	}
 	return nil
 }
 
@@ -249,9 +266,15 @@ func (commander *Commander) RevertTransaction(ctx context.Context, parameters Pa
 		return nil, err
 	}
 
-	commander.monitor.RevertedTransaction(ctx, log.Data.(ledger.RevertedTransactionLogPayload).RevertTransaction, transactionToRevert)
+	payload, ok := log.Data.(ledger.RevertedTransactionLogPayload)
+	if !ok || payload.RevertedTransactionID.Cmp(transactionToRevert.ID) != 0 {
+		return nil, ErrIdempotencyKeyReused
+	}
+	if !parameters.DryRun {
+		commander.monitor.RevertedTransaction(ctx, transactionToRevert, payload.RevertTransaction)
+	}
 
-	return log.Data.(ledger.RevertedTransactionLogPayload).RevertTransaction, nil
+	return payload.RevertTransaction, nil
 }
 
 func (commander *Commander) Close() {
@@ -286,7 +309,7 @@ func (commander *Commander) peekTXID() *big.Int {
 
 func (commander *Commander) DeleteMetadata(ctx context.Context, parameters Parameters, targetType string, targetID any, key string) error {
 	execContext := newExecutionContext(commander, parameters)
-	_, err := execContext.run(ctx, func(executionContext *executionContext) (*ledger.ChainedLog, chan struct{}, error) {
+	chainedLog, err := execContext.run(ctx, func(executionContext *executionContext) (*ledger.ChainedLog, chan struct{}, error) {
 		var (
 			log *ledger.Log
 			at  = ledger.Now()
@@ -318,7 +341,13 @@ func (commander *Commander) DeleteMetadata(ctx context.Context, parameters Param
 		return err
 	}
 
-	commander.monitor.DeletedMetadata(ctx, targetType, targetID, key)
+	payload, ok := chainedLog.Data.(ledger.DeleteMetadataLogPayload)
+	if !ok {
+		return ErrIdempotencyKeyReused
+	}
+	if !parameters.DryRun {
+		commander.monitor.DeletedMetadata(ctx, payload.TargetType, payload.TargetID, payload.Key)
+	}
 
 	return nil
 }
